@@ -100,7 +100,7 @@ Section RDP.
       RdpRel (a :: mids ++ b :: rest) (a :: b :: out).
 
   (* executable version of the same relation (backtracks over which copy of a repeated vertex
-     was the retained one) *)
+     was the retained one); vertices are compared by value (veqb: Qeq on all four ordinates) *)
   Definition within_b (a b p : qv) : bool := Qle_bool (pd2 a b p) (t * t).
   Fixpoint rr_scan (a : qv) (out : list qv) (inp : list qv) : bool :=
     match inp, out with
@@ -110,10 +110,19 @@ Section RDP.
         || (within_b a b x && rr_scan a out r)
     | _, _ => false
     end.
+  (* what rdp_rel_b decides: RdpRel with "the same vertex" read as "equal ordinates" and the
+     distances taken to the output's (retained) vertices *)
+  Inductive RdpRelV : list qv -> list qv -> Prop :=
+  | RV_one : forall a a', veqb a a' = true -> RdpRelV [a] [a']
+  | RV_step : forall a a' mids b b' rest out,
+      veqb a a' = true -> Forall (fun p => within_b a' b' p = true) mids ->
+      RdpRelV (b :: rest) (b' :: out) ->
+      RdpRelV (a :: mids ++ b :: rest) (a' :: b' :: out).
+
   Definition rdp_rel_b (inp out : list qv) : bool :=
     match inp, out with
     | [a], [a'] => veqb a a'
-    | a :: r, a' :: (_ :: _) as out' => veqb a a' && rr_scan a out' r
+    | a :: r, a' :: (_ :: _) as out' => veqb a a' && rr_scan a' out' r
     | _, _ => false
     end.
 
